@@ -289,6 +289,13 @@ impl SignatureContext<'_> {
             a.signed_headers.sort_unstable();
             a
         };
+        if authorization.algorithm != "AWS4-HMAC-SHA256" {
+            return Err(s3_error!(
+                NotImplemented,
+                "signing algorithm other than AWS4-HMAC-SHA256 is not implemented"
+            ));
+        }
+
         let region = authorization.credential.aws_region;
         let service = authorization.credential.aws_service;
 
